@@ -37,8 +37,11 @@ impl<T: ArrivalBound + Clone + 'static> ArrivalBound for Propagated<T> {
     }
 
     fn steps_iter<'a>(&'a self) -> Box<dyn Iterator<Item = Duration> + 'a> {
+        // the first step is at delta=1, unless nothing arrives at all
+        let first =
+            iter::once(Duration::from(1)).filter(move |delta| self.number_arrivals(*delta) > 0);
         Box::new(
-            iter::once(Duration::from(1)).chain(
+            first.chain(
                 // shift the steps of the input event model earlier by the jitter amount
                 self.input_event_model
                     .steps_iter()
